@@ -256,6 +256,18 @@ def validate_traces(name, traces, scheds_by_run, max_rounds=40):
                 [{a: b for a, b in json.loads(x).items() if a not in ("obs",)} for x in lines[start:k + 1]],
             })
             validated += k - start
+            if rej["labels"] == ["flags"] and rej["flags"] and rounds < max_rounds - 2:
+                # only coherence flags of the projection failed: the reference state is still the state of this run, so the rest
+                # of it can be validated - with the failed flags silenced for this run (they would fail at every later call too)
+                for j in range(start, end):
+                    if any('"%s":false' % f in lines[j] for f in rej["flags"]):
+                        e = json.loads(lines[j])
+                        if isinstance(e.get("obs"), dict) and isinstance(e["obs"].get("flags"), dict):
+                            for f in rej["flags"]:
+                                if f in e["obs"]["flags"]:
+                                    e["obs"]["flags"][f] = True
+                            lines[j] = json.dumps(e, separators=(",", ":"))
+                continue
             # drop this run entirely, keep the others
             lines = lines[:start] + lines[end:]
             if rounds >= max_rounds:
